@@ -252,3 +252,26 @@ func WriteFails(path string, fails []Fail) error {
 	}
 	return nil
 }
+
+// GenBytes is the deterministic content generator shared with the Lean driver
+// (Driver.genBytes): byte i is the low byte of the i-th splitmix64 output of NewRand(seed)'s
+// state; with period > 0 the content repeats with that period.
+func GenBytes(seed uint64, n int, period int) []byte {
+	m := n
+	if period > 0 && period < n {
+		m = period
+	}
+	r := &Rand{s: seed*0x9E3779B97F4A7C15 + 0x1234567}
+	base := make([]byte, m)
+	for i := range base {
+		base[i] = byte(r.U64())
+	}
+	if m == n {
+		return base
+	}
+	out := make([]byte, n)
+	for i := range out {
+		out[i] = base[i%m]
+	}
+	return out
+}
